@@ -24,6 +24,8 @@ fn logic_functions_hold_on_the_unchanged_tree() {
         assert_eq!(logic::c01_parse_storage(&f), Ok(()), "c01 {f:?}");
         let mut g = [0u8; 12]; for x in g.iter_mut() { *x = rng(&mut s); }
         assert_eq!(logic::c03_log_info(&g), Ok(()), "c03 {g:?}");
+        let mut h = [0u8; 3]; for x in h.iter_mut() { *x = rng(&mut s); }
+        assert_eq!(logic::c12_match_filters(&h), Ok(()), "c12 {h:?}");
         let mut c = [0u8; 3]; for x in c.iter_mut() { *x = rng(&mut s); }
         assert_eq!(logic::c18_ser_str(&c), Ok(()), "c18 {c:?}");
     }
